@@ -893,6 +893,7 @@ func c12KeyResponses(c *mon.Ctx, w *keyWorld, r *gen.Rand) {
 		notaryFault := map[string]string{}
 		client := &scriptedKeyClient{direct: map[string]func() (gmsl.ServerKeys, error){}, notary: map[string]func() ([]gmsl.ServerKeys, error){}}
 		want := map[string]bool{} // server -> keys expected in the result
+		forged := map[string]bool{} // server -> some answer carries a document in its name made by another server
 		reqs := map[keyReq]spec.Timestamp{}
 		for _, s := range servers[:nsrv] {
 			s := s
@@ -904,6 +905,18 @@ func c12KeyResponses(c *mon.Ctx, w *keyWorld, r *gen.Rand) {
 			nr := w.keyResponse(r, s, vu, nf, nil, "")
 			otherSrv := servers[(indexOf(servers, s)+1)%len(servers)]
 			absentObj := w.keyResponse(r, otherSrv, vu, "", nil, "")
+			var forgedExtra *gmsl.ServerKeys
+			if r.Chance(0.3) {
+				own := w.keys[[2]string{s, "ed25519:k1"}]
+				obj := ref.O("server_name", ref.S(otherSrv), "valid_until_ts", ref.I(time.Now().UnixMilli()+48*hourMs),
+					"verify_keys", ref.O("ed25519:k1", ref.O("key", ref.S(spec.Base64Bytes(own.Pub).Encode()))))
+				if msg, err := gmsl.SignJSON(otherSrv, "ed25519:k1", own.Priv, gen.Plain().Bytes(obj)); err == nil {
+					if sk, err := parseServerKeys(msg); err == nil {
+						forgedExtra = &sk
+						forged[otherSrv] = true
+					}
+				}
+			}
 			client.direct[s] = func() (gmsl.ServerKeys, error) {
 				if df == "error" {
 					return gmsl.ServerKeys{}, errors.New("scripted")
@@ -919,6 +932,10 @@ func c12KeyResponses(c *mon.Ctx, w *keyWorld, r *gen.Rand) {
 					return []gmsl.ServerKeys{sk}, nil
 				}
 				sk, err := parseServerKeys(nr.json)
+				if forgedExtra != nil {
+					// the answering server adds a document in another server's name, made with its own key
+					return []gmsl.ServerKeys{sk, *forgedExtra}, err
+				}
 				return []gmsl.ServerKeys{sk}, err
 			}
 			ok := func(kr keyResp, fault string) bool {
@@ -962,6 +979,14 @@ func c12KeyResponses(c *mon.Ctx, w *keyWorld, r *gen.Rand) {
 				if s != "local.example" && !contains(servers[:nsrv], s) {
 					c.Failf("directfetcher:foreign-keys", "FetchKeys returned keys for %s which was not asked about", s)
 				}
+			}
+			for k2, v := range res {
+				if id, ok := w.keys[[2]string{string(k2.ServerName), string(k2.KeyID)}]; ok && string(v.Key) != string(id.Pub) {
+					c.Failf("directfetcher:key-of-another-server", "FetchKeys returned for %s / %s a key that is not that server's (a document in its name made by another server was among the answers: %v)", k2.ServerName, k2.KeyID, forged[string(k2.ServerName)])
+				}
+			}
+			if len(forged) > 0 {
+				c.Count("direct_fetches_with_a_forged_document_of_another_server")
 			}
 		})
 		// perspective fetcher: a notary answer of 1-3 objects
@@ -1054,6 +1079,7 @@ func c12KeyResponses(c *mon.Ctx, w *keyWorld, r *gen.Rand) {
 		}
 	}
 	c.Floor("direct_fetches", 50)
+	c.Floor("direct_fetches_with_a_forged_document_of_another_server", 10)
 	c.Floor("perspective_fetches", 50)
 }
 
